@@ -17,6 +17,8 @@ import (
 	"github.com/goatnetwork/goat/zzverif/vrt"
 )
 
+const vhHistoryLen = 3
+
 type vhNoAccounts struct{}
 
 func (vhNoAccounts) GetAccount(context.Context, sdk.AccAddress) sdk.AccountI { return nil }
@@ -63,7 +65,7 @@ func VH_C13_history(h *vrt.H) {
 		vhCheckInvLAt(h, k, ctx, st, []sdk.ConsAddress{addr})
 	}
 	check("created")
-	for s := 0; s < 3; s++ {
+	for s := 0; s < vhHistoryLen; s++ {
 		switch h.Choose(h.Name("op", s), 0, 3) {
 		case 0:
 			amt := h.Big(h.Name("lockAmount", s), "0", vhBig)
